@@ -91,7 +91,7 @@ pub fn weights(p: Prop) -> [u8; NOPS] {
     }
 }
 
-fn pick(w: &[u8; NOPS], code: u8) -> usize {
+pub fn pick(w: &[u8; NOPS], code: u8) -> usize {
     let total: usize = w.iter().map(|x| *x as usize).sum();
     let t = (code as usize * total) >> 8;
     let mut acc = 0usize;
@@ -140,6 +140,9 @@ pub struct SetEng<'c, KD: Kind, const N: usize> {
     pub groups: u8,
     pub dup_paths: u32,
     pub poisoned: bool,
+    pub op_overflow: bool,
+    pub ever_overflow: bool,
+    pub ever_cloned: bool,
 }
 
 fn unexpected(cx: &mut Ctx, liar: bool, owners: PS, p: &Pk) -> bool {
@@ -213,6 +216,23 @@ where
         let univ = self.univ;
         let target = self.cur_target;
         let (state0, ident0) = (state, ident);
+        let mut elig = PS::of(Prop::C02).and(Prop::C05);
+        if self.ever_faulted {
+            elig = elig.and(Prop::C04);
+        }
+        if self.op_overflow {
+            elig = elig.and(Prop::C03);
+            self.ever_overflow = true;
+        }
+        if self.cloned || self.cx.cur_op == "clone" {
+            elig = elig.and(Prop::C15);
+            self.ever_cloned = true;
+        }
+        if liar && tl::liar_lies() > 0 {
+            elig = elig.and(Prop::C17);
+        }
+        let (p_well, p_ledger, p_canary, p_leak) = (P_WELL.inter(elig), P_LEDGER.inter(elig), P_CANARY.inter(elig), P_LEAK.inter(elig));
+        let p_all = p_well.union(p_ledger).union(state0);
         let mut stored: Vec<u32> = Vec::new();
         for w in 0..2 {
             let (state, ident) = if target == 2 || target == w { (state0, ident0) } else { (P15, P15) };
@@ -221,30 +241,30 @@ where
             let obs = match Self::observe(&slot.c) {
                 Ok(o) => o,
                 Err(_) => {
-                    cx.chk(P_ALL, false, "broken-container", || "iterating the set panicked".into());
+                    cx.chk(p_all, false, "broken-container", || "iterating the set panicked".into());
                     self.poisoned = true;
                     return;
                 }
             };
             let len = slot.c.m.len();
             let cap = slot.c.m.capacity();
-            cx.chk(P_WELL, obs.len() == len, "len-vs-iter", || format!("len()={} but iteration yields {} elements", len, obs.len()));
-            cx.chk(P_WELL, slot.c.m.is_empty() == (len == 0), "is_empty", || format!("is_empty()={} with len()={}", slot.c.m.is_empty(), len));
-            cx.chk(P_WELL, len <= cap, "len-vs-capacity", || format!("len()={len} exceeds capacity()={cap}"));
+            cx.chk(p_well, obs.len() == len, "len-vs-iter", || format!("len()={} but iteration yields {} elements", len, obs.len()));
+            cx.chk(p_well, slot.c.m.is_empty() == (len == 0), "is_empty", || format!("is_empty()={} with len()={}", slot.c.m.is_empty(), len));
+            cx.chk(p_well, len <= cap, "len-vs-capacity", || format!("len()={len} exceeds capacity()={cap}"));
             if len > cap || !slot.c.intact() {
                 self.poisoned = true;
             }
             cx.chk(P03, cap == N, "capacity", || format!("capacity()={cap} but N={N}"));
-            cx.chk(P_CANARY, slot.c.intact(), "canary", || "bytes outside the container were overwritten".into());
+            cx.chk(p_canary, slot.c.intact(), "canary", || "bytes outside the container were overwritten".into());
             for o in &obs {
-                cx.chk(P_LEDGER.and(Prop::C05), o.live, "dead-yield", || format!("iteration yields a dead or uninitialised element ({})", o.raw));
+                cx.chk(p_ledger.and(Prop::C05), o.live, "dead-yield", || format!("iteration yields a dead or uninitialised element ({})", o.raw));
                 cx.bump(S::addr_checks);
                 cx.chk(P_ADDR, slot.c.contains(o.ka, std::mem::size_of::<KD::K>()), "addr", || "iter() yields a reference outside the container value".into());
             }
             if KD::TRACKED {
                 for (i, a) in obs.iter().enumerate() {
                     for b in &obs[i + 1..] {
-                        cx.chk(P_LEDGER, a.kid != b.kid, "object-twice", || format!("one object is stored in two slots ({})", a.raw));
+                        cx.chk(p_ledger, a.kid != b.kid, "object-twice", || format!("one object is stored in two slots ({})", a.raw));
                     }
                 }
                 stored.extend(obs.iter().map(|o| o.kid));
@@ -252,15 +272,15 @@ where
             if !liar {
                 for (i, a) in obs.iter().enumerate() {
                     for b in &obs[i + 1..] {
-                        cx.chk(P_WELL, a.raw != b.raw, "duplicate-key", || format!("element {} is yielded twice by iteration", a.raw));
+                        cx.chk(p_well, a.raw != b.raw, "duplicate-key", || format!("element {} is yielded twice by iteration", a.raw));
                     }
                 }
                 for o in &obs {
                     let qo = KD::qo(o.raw);
                     let got = tl::quiet(|| slot.c.m.get::<KD::Q>(KD::q(&qo)).map(|k| addr(k)));
-                    cx.chk(P_WELL, got == Ok(Some(o.ka)), "yield-vs-get", || format!("get({}) does not return the yielded element", o.raw));
+                    cx.chk(p_well, got == Ok(Some(o.ka)), "yield-vs-get", || format!("get({}) does not return the yielded element", o.raw));
                     let got = tl::quiet(|| slot.c.m.contains::<KD::Q>(KD::q(&qo)));
-                    cx.chk(P_WELL, got == Ok(true), "yield-vs-contains", || format!("contains({}) is false for a yielded element", o.raw));
+                    cx.chk(p_well, got == Ok(true), "yield-vs-contains", || format!("contains({}) is false for a yielded element", o.raw));
                 }
             }
             slot.order.clear();
@@ -320,7 +340,7 @@ where
         if KD::TRACKED {
             let cx = &mut *self.cx;
             if let Some(v) = tl::ledger_first_violation() {
-                cx.chk(P_LEDGER, false, "ledger", || v);
+                cx.chk(p_ledger, false, "ledger", || v);
             }
             if faulted {
                 let n = tl::ledger_excuse_unstored(&stored);
@@ -337,10 +357,11 @@ where
                         break;
                     }
                 }
-                cx.chk(P_LEAK, ok, "leak", || msg);
+                cx.chk(p_leak, ok, "leak", || msg);
             }
         }
         self.faulted = false;
+        self.op_overflow = false;
     }
 
     fn drop_slot1(&mut self) -> bool {
@@ -361,6 +382,7 @@ where
         self.cx.cur_op = OP_NAMES[opi];
         let w = if raw[3] & 0x80 != 0 && self.slots[1].is_some() { 1 } else { 0 };
         self.cur_target = w;
+        self.op_overflow = false;
         let (a, b, c) = (raw[1], raw[2], raw[3] & 0x7f);
         let lied0 = tl::liar_lies();
         match opi {
@@ -397,6 +419,9 @@ where
             let cx = &mut *self.cx;
             let present = slot.model.get(&k).copied();
             let full = slot.model.len() >= N;
+            if full {
+                self.op_overflow = true;
+            }
             let key = KD::key(k);
             let kid = KD::kid(&key);
             let m = &mut slot.c.m;
@@ -951,6 +976,7 @@ where
             }
             if overflow_at.is_some() {
                 cx.bump(S::bulk_overflow);
+                self.op_overflow = true;
             }
             let pulled = Cell::new(0usize);
             let m = &mut slot.c.m;
@@ -1119,6 +1145,7 @@ where
         }
         if overflow_at.is_some() {
             cx.bump(S::bulk_overflow);
+            self.op_overflow = true;
         }
         let items: Vec<KD::K> = keys.iter().map(|k| KD::key(*k)).collect();
         let ids: Vec<u32> = items.iter().map(|k| KD::kid(k)).collect();
@@ -1236,6 +1263,7 @@ where
             let liar = self.liar;
             let mut fault = false;
             {
+                self.op_overflow = true;
                 let slot = self.slots[w].as_mut().unwrap();
                 let cx = &mut *self.cx;
                 let item = KD::key(k);
@@ -1380,17 +1408,30 @@ where
                         self.cx.add(S::fault_leaks_excused, n as u64);
                     } else if !self.liar {
                         let n = p.name();
-                        self.cx.chk(P_ALL, false, "drop-panic", || format!("dropping the set panicked: {n}"));
+                        self.cx.chk(P_WELL.union(P_LEDGER), false, "drop-panic", || format!("dropping the set panicked: {n}"));
                     }
                 }
             }
         }
         if KD::TRACKED {
+            let mut elig = PS::of(Prop::C02).and(Prop::C05);
+            if self.ever_faulted {
+                elig = elig.and(Prop::C04);
+            }
+            if self.ever_overflow {
+                elig = elig.and(Prop::C03);
+            }
+            if self.ever_cloned {
+                elig = elig.and(Prop::C15);
+            }
+            if self.liar && tl::liar_lies() > 0 {
+                elig = elig.and(Prop::C17);
+            }
             if let Some(v) = tl::ledger_first_violation() {
-                self.cx.chk(P_LEDGER, false, "ledger", || v);
+                self.cx.chk(P_LEDGER.inter(elig), false, "ledger", || v);
             }
             let left = tl::ledger_live_strict();
-            self.cx.chk(P_LEAK, left.is_empty(), "leak-at-end", || format!("{} object(s) never destroyed, e.g. #{}", left.len(), left[0]));
+            self.cx.chk(P_LEAK.inter(elig), left.is_empty(), "leak-at-end", || format!("{} object(s) never destroyed, e.g. #{}", left.len(), left[0]));
         }
         if self.ever_faulted {
             self.cx.bump(S::fault_fired);
@@ -1449,6 +1490,9 @@ where
         lib_panicked: false,
         cur_target: 0,
         poisoned: false,
+        op_overflow: false,
+        ever_overflow: false,
+        ever_cloned: false,
         cloned: false,
         mutated_after_clone: false,
         groups: 0,
